@@ -22,7 +22,7 @@ int main(void) {
   int64_t* pts = malloc(sizeof(int64_t) * 2 * N);              /* IntVec2 = two int64 */
   for (int i = 0; i < N; i++) { px[i] = nd_range(-R, R); py[i] = nd_range(-R, R); pts[2 * i] = px[i]; pts[2 * i + 1] = py[i]; }
   IVARR arr; arr.f0 = N; arr.f1 = N; arr.f2 = (void*)pts;
-  Stream out; memset(&out, 0, sizeof out); out.f1 = buf; out.f2 = buf; out.f3 = BUF;
+  Stream out = {0}; out.f1 = buf; out.f2 = buf; out.f3 = BUF;
   W_PL(&out, &arr, CLOSED);
   uint64_t written = (uint64_t)(out.f2 - buf);
 #ifdef REAL
@@ -30,7 +30,7 @@ int main(void) {
 #else
   written = (uint64_t)tok_n;
 #endif
-  Stream in; memset(&in, 0, sizeof in); in.f1 = buf; in.f2 = buf; in.f3 = BUF;
+  Stream in = {0}; in.f1 = buf; in.f2 = buf; in.f3 = BUF;
   double* rv = malloc(sizeof(double) * 2 * (N + 2));           /* Vec2 = two doubles */
   VARR res; res.f0 = N + 2; res.f1 = 1; res.f2 = (void*)rv;
   rv[0] = (double)px[0]; rv[1] = (double)py[0];
